@@ -161,6 +161,18 @@ func (x *Exec) evalIdent(name string, env *Env) Val {
 			return x.groundFacts(v, env.st)
 		}
 	}
+	if !env.closed && x.inlined && x.parent != nil {
+		// inside an inlined helper the caller's contract may name the caller's variables
+		for p := x.parent; p != nil; p = p.parent {
+			nm := name
+			if a, ok := p.alias[nm]; ok {
+				nm = a
+			}
+			if v, ok := p.lookupName(nm, p.cur, env.st, false); ok {
+				return v
+			}
+		}
+	}
 	if x.fn != nil && x.fn.Pkg != nil {
 		if g, ok := x.fn.Pkg.Members[name].(*ssa.Global); ok {
 			return x.globalVal(g)
@@ -187,6 +199,28 @@ func (x *Exec) evalIdent(name string, env *Env) Val {
 				defer delete(x.resolving, name)
 				x.enc.note("%s: contract name %q no longer exists; read as %s", x.name, name, sub)
 				return x.eval(ex, env)
+			}
+		}
+	}
+	if !env.closed && x.inlined && x.parent != nil && !x.resolving[name] {
+		// the caller's invariant names a caller variable that vanished (range variable
+		// of a rewritten loop, inlined temporary): read it in the caller's frame
+		for p := x.parent; p != nil; p = p.parent {
+			if p.fn == nil || p.inlined {
+				continue
+			}
+			if sub := vanishedName(shortName(p.fn), p.fn, name); sub != "" {
+				if ex, err := parseSpec(sub); err == nil {
+					if x.resolving == nil {
+						x.resolving = map[string]bool{}
+					}
+					x.resolving[name] = true
+					defer delete(x.resolving, name)
+					x.enc.note("%s: contract name %q no longer exists in the caller; read as %s", x.name, name, sub)
+					env2 := *env
+					env2.atBlock = p.cur
+					return p.eval(ex, &env2)
+				}
 			}
 		}
 	}
@@ -506,6 +540,9 @@ func (x *Exec) evalCall(n *SCall, env *Env) Val {
 		}
 		if v, ok := env.binders["&"+id.Name]; ok {
 			return v
+		}
+		if a, ok := x.alias[id.Name]; ok && !env.closed {
+			id = &SIdent{Name: a}
 		}
 		for _, fv := range x.fn.FreeVars {
 			if fv.Name() == id.Name {
